@@ -341,6 +341,7 @@ func checkC14(c *Ctx, e *Env) {
 			for _, want := range []struct{ dim, what string }{
 				{"Class.Key", "batch → project → class"},
 				{"CreditType.Abbreviation", "class → credit type"},
+				{"src:BatchBalance.BatchKey", "balance → batch (every BatchBalance row's batch key)"},
 			} {
 				how, ok := got[want.dim]
 				if ok {
